@@ -11,6 +11,27 @@ import queue
 import threading
 
 
+import collections
+import enum
+
+
+class Colour(enum.IntEnum):
+    """Payload values that pickle by reference to a class (what applications
+    put into their events: enums, ordered dicts, str subclasses)."""
+    RED = 1
+    GREEN = 2
+
+
+class Tag(str):
+    pass
+
+
+def rich_payload(tok):
+    return {'t': tok, 'colour': Colour.GREEN,
+            'fields': collections.OrderedDict([('b', 1), ('a', 2)]),
+            'tag': Tag('x%d' % tok)}
+
+
 class Channel:
     def __init__(self):
         self.log = []            # every message ever published (bytes)
